@@ -55,6 +55,7 @@ def parseCell (j : Json) : Except String Cell := do
     lat := ← getON (← j.getObjVal? "lat")
     fill := ← getON (← j.getObjVal? "fill")
     fillComplex := ← (← j.getObjVal? "fill_complex").getBool?
+    fillMulti := ← (← j.getObjVal? "fill_multi").getBool?
     setIn := ← parseFlags (← j.getObjVal? "set_in") }
 
 def parseDI (j : Json) : Except String (Option K) :=
@@ -107,7 +108,7 @@ def cellJ (c : Cell) : Json := Json.mkObj [
   ("number", toJson c.number),
   ("imp", Json.arr (c.imp.map (fun e => Json.mkObj [("p", toJson e.p), ("v", qJ e.v), ("cl", toJson e.cl)])).toArray),
   ("vol", oqJ c.vol), ("u", onJ c.uni), ("ntr", toJson c.ntr), ("lat", onJ c.lat), ("fill", onJ c.fill),
-  ("fill_complex", toJson c.fillComplex)]
+  ("fill_complex", toJson c.fillComplex), ("fill_multi", toJson c.fillMulti)]
 
 def stateJ (s : St) : Json := Json.mkObj [
   ("cells", Json.arr (s.cells.map cellJ).toArray), ("mode", toJson s.mode),
